@@ -3,3 +3,18 @@ check('C15', 'exploration',
       'All digit strings up to length 5 (quick) / 7 (thorough) are enumerated against a textbook Luhn reference, with every single-digit substitution and admissible adjacent transposition of the short valid numbers; long numbers with separators are sampled by Hypothesis; the rejection batch is re-run in python, python -O and python -OO subprocesses. Exploration is the right level: the short space is covered completely, the long one by sampling.',
       'Trusts the textbook Luhn reference in props/c15.py and that the subprocess imports cardutil from the tree under test (asserted).',
       'DESIGN.md section 4 C15')
+check('C03', 'exploration',
+      'exhaustive single-record length sweep + Hypothesis record lists vs independent VBS/1014 reference (byte-exact layout, four writer paths, two reader paths)',
+      'Every single-record length 1..6000 (blocked and unblocked) and two-record files around the 1012-byte edge are enumerated; Hypothesis draws record lists with boundary-biased lengths and adversarial contents. Bytes are compared with an independent reference layout and read back. The length space is covered completely, list shapes by sampling, hence exploration.',
+      'Trusts vlib/refvbs.py (written from the mciipm module documentation).',
+      'DESIGN.md section 4 C03')
+check('C04', 'exploration',
+      'exhaustive blocker-state x path x write-length enumeration + Hypothesis write histories with per-step prefix invariant; validity predicate from independent 1014 reference',
+      'All 1013 internal blocker states, each reached by two chunkings, are crossed with boundary (quick) or all 0..3036 (thorough) next write lengths; longer histories with empty writes and three finalisers are sampled with an invariant after every step. The oracle is a validity predicate (any correct file passes), so a correct alternative implementation is not flagged.',
+      'Trusts vlib/refvbs.py; position-coded content makes any moved/dropped/duplicated byte visible.',
+      'DESIGN.md section 4 C04')
+check('C05', 'fault_enumeration',
+      'exhaustive residue x chunking x read-size enumeration + Hypothesis read sequences vs payload/cursor model; every truncation length and trailer-byte substitution for unblock_1014',
+      'Reads: every delivered residue, three chunkings, boundary (quick) or all 1..2024 (thorough) next sizes, then size-less read and reads at the end, against a payload+cursor model. unblock_1014: every truncation length and all 255 substitutions of every trailer byte of 1..4-block files must be refused, other substitutions change exactly one payload byte. The fault space named by the property is enumerated per base file.',
+      'Trusts vlib/refvbs.py. read(0)/negative sizes are outside the property and not generated.',
+      'DESIGN.md section 4 C05')
